@@ -8,7 +8,7 @@ THEOREMS = ["Slock.C16.C16_crash_partial", "Slock.C16.C16_steps_shape", "Slock.C
 FINISH = {"level": "proof", "assumptions": [
     "compaction = Model/Aof.lean compactionSteps (writeSteps ++ clearSteps) with keep = keepRule now view (HasLock on the command the callback builds: Expried := loadRemaining(now), CheckLockedEqual / checkLockedCountEqual = the regenerated kernels Slock.Gen.K); tied to aof.go findRewriteAofFiles / loadRewriteAofFiles / clearRewriteAofFiles by the aofrewrite differential: the real functions run on a scratch dir against a real LockDB on a virtual clock, with records of age 0-300 s (0-600 s minute unit) produced by the real AofChannel.Push from real holds; the keep observation is the content of the real rewrite.aof.tmp; directory snapshot after each os.Remove / os.Rename of clearRewriteAofFiles (replayed call by call in-package; cross-checked against the real function's end state)",
     "restart mode (monitor): seeded histories through a real SLock + real Aof, a REAL compaction on the live node, fresh SLock on copies of the directory before/after; compared through the reference replay recover (Slock.Aof.recover, diffed against the harness oracle) and through the real recovery of both directories",
-    "size-triggered rotation in the middle of a history is not exercised: loadRewriteAofFiles filters expired records against time.Now(), so compactions are run where the virtual clock equals the real one (end of the history)",
+    "size-triggered rotation + background compaction IN the history is exercised by dedicated rotation cases (every 4th case and two must-pass corpus lines): aof_file_rewrite_size = header + 2..6 records, no ticks (the whole history runs at virtual clock = real clock, because loadRewriteAofFiles filters against time.Now()), one persist-now hold per key with / without value, re-locks and releases; checked: record file / value file pairing per file, journal meaning vs database, restart vs reload vs recover. The general histories (with ticks in the virtual past) still compact only at their end",
     "file names in parsed form (parseName = the grammar FindAofFiles accepts); the wrap-around index branch of FindAofFiles is modelled as an error",
     "C16_content for all directories is NOT proved: proved at record-list level under the two stated engine hypotheses (C16_content_partial), on a witness by evaluation, and checked against the real code by the differential + monitor",
     "granularity of the write phase: one write per file (the real writer flushes in buffer-size chunks); all of them precede the first remove"]}
